@@ -131,6 +131,12 @@ def run_history(mods, job):
         # the ill-conditioned family makes no claim about outputs (prior-to-noise ratios up to 1e10 amplify rounding with cond(S));
         # there only "a strictly valid input is never refused" is judged
         ev["valid_out"] = valid_cov(cov.data, ref) if job.get("scale_noise", True) else True
+        if kind == "update" and cov.data.size:
+            # whatever the conditioning, the covariance a sensor update hands back is symmetric relative to ITS OWN magnitude
+            # (an asymmetry left by K H P would survive when large variances shrink and be refused later)
+            a = float(np.max(np.abs(cov.data - cov.data.T)))
+            if a > 1e-12 * max(1e-300, float(np.max(np.abs(cov.data)))):
+                ev["valid_out"] = False
         if not ev["valid_out"]:
             ev["P_in"] = P_in.tolist()
             ev["P_out"] = cov.data.tolist()
